@@ -1905,6 +1905,12 @@ class Interp:
                         return 'property', c.methods[v_.args[0].id]
                     if isinstance(v_, ast.Constant):
                         return 'value', Const(v_.value)
+                    if getattr(self, 'concrete_context', False) and c.module is not None:
+                        # a class-level constant expression: evaluated once, in the module's namespace
+                        key_ = ('#classattr', c.module.name, c.name, attr)
+                        if key_ not in self._const_cache:
+                            self._const_cache[key_] = self.eval(v_, Frame(None, c.module, None))
+                        return 'value', self._const_cache[key_]
                     raise Undecided('class attribute %s.%s = %s' % (c.name, attr, src(v_)[:40]))
             for b in c.bases:
                 bn = b.split('.')[-1]
